@@ -25,7 +25,7 @@ PROP = {
 }
 
 MUTATORS = ["add_block", "remove_block", "replace_block", "set-data3D", "set-force_and_torque", "set-force_platforms_data", "set-events", "set-emg"]
-READERS = ["blocks", "get_block-type", "get_block-index", "getitem", "data3D", "force_and_torque", "force_platforms_data", "events", "emg",
+READERS = ["blocks", "get_block-type", "get_block-index", "get_block-out-of-range", "getitem", "data3D", "force_and_torque", "force_platforms_data", "events", "emg",
            "calibrationData", "has_data3D", "has_force_and_torque", "has_events", "has_emg", "has_force_platforms_data", "len", "nBytes", "eq", "eq-bare", "repr", "copy"]
 SETTER_TYPE = {"set-data3D": "data3D", "set-force_and_torque": "force3D", "set-force_platforms_data": "platData", "set-events": "events", "set-emg": "emg"}
 
@@ -58,14 +58,34 @@ class Interp:
                                    "comment": b["comment"], "cdate": b["cdate"], "mdate": b["mdate"]})
             with open(self.path, "wb") as f:
                 f.write(reftdf.build_image(init["N"], blocks, version=init.get("version", 1)))
-        self.tdf = Tdf(self.path)
-        self.armed = self.inside = self.write = False
+        self.objs = [Tdf(self.path), Tdf(self.path)]
+        self.states = [{"armed": False, "inside": False, "write": False}, {"armed": False, "inside": False, "write": False}]
+        self.cur = 0
         self.entered_once = False
         self.copies = 0
         self.stats = {"mutator-in-non-write-mode": 0, "mutator-in-write-mode": 0, "write-then-plain-reentry": 0, "readers": 0,
                       "exit-by-exception": 0, "implicit-open": 0}
         self.had_write_context = False
         self.resync()
+
+    # the object the current operation talks to, and its modelled mode
+    @property
+    def tdf(self):
+        return self.objs[self.cur]
+
+    @tdf.setter
+    def tdf(self, v):
+        self.objs[self.cur] = v
+
+    def _g(self, k):
+        return self.states[self.cur][k]
+
+    def _s(self, k, v):
+        self.states[self.cur][k] = v
+
+    armed = property(lambda self: self._g("armed"), lambda self, v: self._s("armed", v))
+    inside = property(lambda self: self._g("inside"), lambda self, v: self._s("inside", v))
+    write = property(lambda self: self._g("write"), lambda self, v: self._s("write", v))
 
     def resync(self):
         p = reftdf.parse_container(self.read())
@@ -77,11 +97,12 @@ class Interp:
             return f.read()
 
     def close(self):
-        try:
-            if self.inside:
-                self.tdf.__exit__(None, None, None)
-        except Exception:
-            pass
+        for i, o in enumerate(self.objs):
+            try:
+                if self.states[i]["inside"]:
+                    o.__exit__(None, None, None)
+            except Exception:
+                pass
         env.rmdir(self.dir)
 
     def mode_name(self):
@@ -92,6 +113,9 @@ class Interp:
     # ------------------------------------------------------------------------------------
     def apply(self, op):
         o = op["op"]
+        self.cur = op.get("obj", 0) % 2
+        if self.cur == 1:
+            self.stats["second-object-ops"] = self.stats.get("second-object-ops", 0) + 1
         before = self.read()
         st0 = os.stat(self.path)
         if o == "allow_write":
@@ -213,6 +237,8 @@ class Interp:
                 return t.get_block(BlockType(codes[k % len(codes)]))
             if which == "get_block-index":
                 return t.get_block(k % max(1, self.N))
+            if which == "get_block-out-of-range":
+                return t.get_block(self.N + k % 3)
             if which == "getitem":
                 return t[k % max(1, self.N)]
             if which in ("data3D", "force_and_torque", "force_platforms_data", "events", "emg", "calibrationData") or which.startswith("has_"):
@@ -241,7 +267,9 @@ class Interp:
                         oh.close()
             if which == "copy":
                 self.copies += 1
-                return t.copy(os.path.join(self.dir, f"copy{self.copies}.tdf"))
+                cp = t.copy(os.path.join(self.dir, f"copy{self.copies}.tdf"))
+                self.check_copy_is_read_only(cp)
+                return cp
 
         self.leaked_other = False
         try:
@@ -266,7 +294,7 @@ class Interp:
         after = self.read()
         st1 = os.stat(self.path)
         self.ctx.label(f"reader:{which}|{'inside' if was_inside else 'outside'}")
-        if after != before or st1.st_size != st0.st_size or st1.st_mtime_ns != st0.st_mtime_ns:
+        if after != before or st1.st_size != st0.st_size or st1.st_mtime_ns != st0.st_mtime_ns or st1.st_mode != st0.st_mode:
             self.ctx.fail(f"reader-{which}/modifies-file", f"reader {which} in mode '{self.mode_name()}' modified the file (bytes equal: {after == before}, "
                                                            f"mtime {st0.st_mtime_ns} -> {st1.st_mtime_ns})")
         if not was_inside:
@@ -277,6 +305,35 @@ class Interp:
                 self.ctx.fail(f"reader-{which}/descriptor-leak", f"reader {which} called outside a context changed the number of open descriptors {fds0} -> {nfds()}")
             if getattr(t, "_inside_context", False):
                 self.ctx.fail(f"reader-{which}/still-inside", f"after reader {which} the object believes it is still inside a context")
+
+    def check_copy_is_read_only(self, cp):
+        """the object returned by copy() never saw allow_write(): a mutation through it, in a plain context, must raise and leave the copy untouched"""
+        from .c07 import labelled_spec
+
+        data = open(cp.file_path, "rb").read()
+        parsed = reftdf.parse_container(data)
+        live = [e["type"] for _, e in reftdf.live(parsed)]
+        name = next((n for n in ("events", "emg", "optical", "data3D", "platCal") if reftdf.TYPE_CODE[n] not in live), None)
+        raised = True
+        try:
+            with cp as c:
+                if name is not None and len(live) < parsed["nEntries"]:
+                    c.add_block(specs.build(labelled_spec(name, 1)))
+                    raised = False
+                elif live:
+                    from basictdf.tdfBlock import BlockType
+
+                    c.remove_block(BlockType(live[0]))
+                    raised = False
+        except Exception:  # noqa
+            pass
+        if open(cp.file_path, "rb").read() != data:
+            self.ctx.fail("copy/returned-object-write-enabled", f"the object returned by copy() (source in mode '{self.mode_name()}') modified its file in a plain context without allow_write()")
+        elif not raised:
+            self.ctx.fail("copy/returned-object-mutator-not-refused", "a mutator on the object returned by copy(), in a plain context, did not raise")
+        h = getattr(cp, "handler", None)
+        if h is not None and not h.closed:
+            self.ctx.fail("copy/returned-object-handle-open", "the object returned by copy() keeps an open handle")
 
     def finish(self):
         pass
@@ -298,6 +355,10 @@ MODES = {
     "allow_write-inside-read-context": [{"op": "enter"}, {"op": "allow_write"}],
     "no-context-after-write-context": [{"op": "allow_write"}, {"op": "enter"}, {"op": "exit"}],
     "armed-then-reader-then-context": [{"op": "allow_write"}, {"op": "read", "which": "has_events", "k": 0}, {"op": "enter"}],
+    "other-object-armed": [{"op": "allow_write", "obj": 1}, {"op": "enter"}],
+    "other-object-in-write-context": [{"op": "allow_write", "obj": 1}, {"op": "enter", "obj": 1}, {"op": "enter"}],
+    "other-object-left-write-context": [{"op": "allow_write", "obj": 1}, {"op": "enter", "obj": 1}, {"op": "exit", "obj": 1}, {"op": "enter"}],
+    "double-allow_write-then-two-contexts": [{"op": "allow_write"}, {"op": "allow_write"}, {"op": "enter"}, {"op": "exit"}, {"op": "enter"}],
 }
 
 
@@ -327,13 +388,15 @@ def run(ctx, case):
 
 def ops():
     k = st.integers(0, 50)
+    obj = st.sampled_from([0, 0, 0, 1])   # mostly one object; sometimes a second Tdf object for the same path
     return st.one_of(
-        st.just({"op": "allow_write"}), st.just({"op": "enter"}), st.just({"op": "enter"}),
-        st.fixed_dictionaries({"op": st.just("exit"), "exception": st.booleans()}),
-        st.just({"op": "new-object"}),
-        st.fixed_dictionaries({"op": st.just("mutate"), "which": st.sampled_from(MUTATORS), "k": k}),
-        st.fixed_dictionaries({"op": st.just("mutate"), "which": st.sampled_from(MUTATORS), "k": k}),
-        st.fixed_dictionaries({"op": st.just("read"), "which": st.sampled_from(READERS), "k": k}),
+        st.fixed_dictionaries({"op": st.just("allow_write"), "obj": obj}), st.fixed_dictionaries({"op": st.just("enter"), "obj": obj}),
+        st.fixed_dictionaries({"op": st.just("enter"), "obj": obj}),
+        st.fixed_dictionaries({"op": st.just("exit"), "exception": st.booleans(), "obj": obj}),
+        st.fixed_dictionaries({"op": st.just("new-object"), "obj": obj}),
+        st.fixed_dictionaries({"op": st.just("mutate"), "which": st.sampled_from(MUTATORS), "k": k, "obj": obj}),
+        st.fixed_dictionaries({"op": st.just("mutate"), "which": st.sampled_from(MUTATORS), "k": k, "obj": obj}),
+        st.fixed_dictionaries({"op": st.just("read"), "which": st.sampled_from(READERS), "k": k, "obj": obj}),
     )
 
 
@@ -343,7 +406,7 @@ def machine(ctx, tier):
 
 SUBS = [
     Sub("matrix", run, kind="enum", enumerate=enum_matrix, shards=(8, 16),
-        rule="3 images x 10 scripted access modes x (8 mutators x 2 variants + 20 readers); finite, enumerated completely"),
+        rule="3 images x 14 scripted access modes (four of them with a second Tdf object for the same path) x (8 mutators x 2 variants + 20 readers); finite, enumerated completely"),
     Sub("interleavings", run, kind="machine", machine=machine, budget=(150, 4000), shards=(4, 16), steps=(25, 50),
         rule="generated images; arbitrary interleavings of allow_write / enter / exit / exit-by-exception / new object / mutators / readers"),
 ]
